@@ -332,6 +332,10 @@ type seqEnd struct {
 	onRead func()
 	// refuse: every Write fails with nothing written (expired write deadline)
 	refuse bool
+	// onWrite, if set, runs inside every Write before the bytes are taken
+	// over: whatever happens elsewhere in the process while this write is
+	// under way (a blocked socket, a slow peer)
+	onWrite func()
 }
 
 var errWriteRefused = errors.New("harness: write deadline expired, 0 bytes written")
@@ -345,6 +349,9 @@ func (e *seqEnd) Read(p []byte) (int, error) {
 func (e *seqEnd) Write(p []byte) (int, error) {
 	if e.refuse {
 		return 0, errWriteRefused
+	}
+	if e.onWrite != nil {
+		e.onWrite()
 	}
 	e.w.buf = append(e.w.buf, p...)
 	return len(p), nil
